@@ -428,14 +428,25 @@ func ApplyArray(a *zerolog.Array, ops []Op) *zerolog.Array {
 
 // ---------------------------------------------------------------- context ops
 type Cop struct {
-	K   string // op anerr err errs object embed hook timestamp reset
+	K   string // op anerr err errs object embed hook timestamp caller reset
 	O   *Op
 	Key []byte
 	E   *ErrV
 	Es  []*ErrV
 	Sub []Op
 	Nil bool
+	// caller: Context.Caller() when Skip == CallerGlobal, else Context.CallerWithSkipFrameCount(Skip).
+	// Both register a hook (like Timestamp()). A Skip of CallerBeyond or more is deeper than any stack: no field.
+	Skip int
 }
+
+const (
+	CallerGlobal = -1 << 20
+	CallerBeyond = 1 << 20
+)
+
+// CallerCop: the context op and the fragment the model runs for its hook
+func CallerCop(skip int) Cop { return Cop{K: "caller", Skip: skip} }
 
 func ApplyContext(c zerolog.Context, cops []Cop) zerolog.Context {
 	for i := range cops {
@@ -481,6 +492,12 @@ func ApplyContext(c zerolog.Context, cops []Cop) zerolog.Context {
 			}
 		case "timestamp":
 			c = c.Timestamp()
+		case "caller":
+			if co.Skip == CallerGlobal {
+				c = c.Caller()
+			} else {
+				c = c.CallerWithSkipFrameCount(co.Skip)
+			}
 		case "reset":
 			c = c.Reset()
 		case "hook":
@@ -646,6 +663,11 @@ func (c *Cop) Coq(s Settings) string {
 		return "(CEmbed " + optOpsCoq(c.Nil, c.Sub, s) + ")"
 	case "timestamp", "hook":
 		return "(CHook " + OpsCoq(c.Sub, s) + ")"
+	case "caller":
+		if c.Skip >= CallerBeyond {
+			return "(CHook [OCaller None])"
+		}
+		return "(CHook [OCaller (Some " + CoqBytes([]byte(CallerText)) + ")])"
 	case "reset":
 		return "CReset"
 	}
@@ -684,6 +706,9 @@ func DescribeOps(ops []Op) []interface{} {
 		}
 		if o.E != nil {
 			d["err"] = o.E.K
+		}
+		if o.K == "mark" {
+			d["id"] = o.ID
 		}
 		if len(o.KVs) > 0 {
 			var ks []string
